@@ -30,7 +30,7 @@ EVENTS = [[1], [2], [3, 1], [1, 3], [2, 3], [2, 1, 2]]
 
 
 def budget(tier):
-    return {"examples": 700 if tier == "quick" else 40000, "wall_s": 110 if tier == "quick" else 1500}
+    return {"examples": 450 if tier == "quick" else 40000, "wall_s": 110 if tier == "quick" else 1500}
 
 
 @st.composite
@@ -50,7 +50,7 @@ def _case(draw):
         c["precise"] = draw(st.booleans())
         c["encoder"] = draw(st.sampled_from(["identity", "linear"]))
     if kind == "mademog":
-        c["features"] = draw(st.sampled_from([1, 1, 2]))
+        c["features"] = draw(st.sampled_from([1, 1, 1, 2]))
         c["components"] = draw(st.integers(1, 4))
         c["ctx"] = draw(st.sampled_from([None, 2]))
         c["res"] = draw(st.booleans())
